@@ -91,6 +91,11 @@ var wideConstructs = []string{"filter", "case", "in-list", "between", "fn-args",
 
 func genWide(t *rapid.T, only []string) *WideQ {
 	doc, sc := genC07Doc(t)
+	return genWideOn(t, doc, sc, only)
+}
+
+// genWideOn draws a wide query over an existing document / schema.
+func genWideOn(t *rapid.T, doc map[string]any, sc *c07Schema, only []string) *WideQ {
 	w := &WideQ{Doc: doc}
 	pool := wideConstructs
 	if only != nil {
